@@ -25,6 +25,7 @@ WITNESSES = [
     ("K1b", 2, "foo m:# calculateLayout:m.0?int = Foo;\n", "ok buildfail"),
     ("K2", 0, "//tl2\nt2.box0 = ;\n@read t2.fn0#0bd7437c x:int32 => t2.box0;\n", "ok buildfail"),
     ("K3", 0, "//tl2\nt2.read0 = ;\nzq.obj1 = f0:string f1?:t2.read0;\n", "ok buildfail"),
+    ("K3b", 0, "empty = Empty;\nfoo m:# x:m.0?Empty = Foo;\n", "ok buildfail"),
     ("K4a", 0, "//tl2\nt2.a = f1:[]bit;\n", "ok buildfail"),
     ("K4b", 0, "//tl2\nt2.a = f1:[string]bit;\n", "panic"),
     ("K5", 5, P_DICT + "foo w:(dictionary (dictionary string)) = Foo;\n", "ok buildfail"),
@@ -36,6 +37,8 @@ WHAT = {
     "K1b": "with TL2 code enabled a field named calculateLayout / internalReadTL2 / internalWriteTL2 collides with a generated method",
     "K2": "TL2 function whose result is a TL2 struct or array, generated without --tl2WhiteList: result type lacks TL2 methods, Go does not compile",
     "K3": "TL2 optional field of an empty struct type: generated Go does not compile (bool assigned to struct)",
+    "K3b": "TL1 field under a fields mask whose type is an empty struct (`empty = Empty; foo m:# x:m.0?Empty = Foo;`, default options): "
+           "generated Go does not compile (bool assigned to struct)",
     "K4a": "TL2 `bit` as array element ([]bit, [N]bit): generated Go refers to undefined BitReadTL1",
     "K4b": "TL2 `bit` as dictionary value ([K]bit): tl2gen --language=go panics (nil dereference in streamwriteJSONCode)",
     "K5": "nested dictionary with --split-internal --tl2WhiteList=* --generateByteVersions=*: unused import in generated Go",
